@@ -109,12 +109,15 @@ Proof.
 Qed.
 
 (* an accepted trace is literally one of the generated programs *)
-Lemma ctrace_ok_in name obs : case_ok (CTrace name obs) = true -> In obs programs.
+Lemma accepted_in (l : list (string * list op)) name obs :
+  existsb (ops_eqb obs) (map snd (filter (fun np => String.eqb (fst np) name) l)) = true -> In obs (map snd l).
 Proof.
-  cbn. intros H. apply existsb_exists in H. destruct H as [p [Hin Heq]]. apply ops_eqb_eq in Heq. subst p.
-  unfold programs_of in Hin. apply in_map_iff in Hin. destruct Hin as [[n q] [Hq Hf]]. cbn in Hq. subst q.
-  apply filter_In in Hf. destruct Hf as [Hf _]. unfold programs. apply in_map_iff. exists (n, obs). split; auto.
+  intros H. apply existsb_exists in H. destruct H as [p [Hin Heq]]. apply ops_eqb_eq in Heq. subst p.
+  apply in_map_iff in Hin. destruct Hin as [[n q] [Hq Hf]]. cbn [snd] in Hq. subst q.
+  apply filter_In in Hf. destruct Hf as [Hf _]. apply in_map_iff. exists (n, obs). split; [reflexivity|exact Hf].
 Qed.
+Lemma ctrace_ok_in name obs : case_ok (CTrace name obs) = true -> In obs programs.
+Proof. exact (accepted_in named_programs name obs). Qed.
 
 (* when the model says "deadlocks", a deadlocking schedule exists in the transition system *)
 Lemma model_deadlocks_sound p : model_deadlocks p = true ->
@@ -135,12 +138,12 @@ Lemma mstep_shape m o b m' : mstep m o b = Some m' -> m' = m \/ exists w, m' = a
 Proof.
   destruct o as [k e|k e|k e|k|p|k|k| | | |]; destruct b as [| |k'|id|x|n|l]; cbn [mstep]; try discriminate; intros H.
   all: try (apply guard_some in H; subst; first [left; reflexivity | right; eexists; reflexivity]).
-  - inversion H; subst. right; eexists; reflexivity.
+  - injection H as <-. right; exists (ReplaceOrAdd k e); reflexivity.
   - destruct (lookup m k'); [|discriminate]. apply guard_some in H. subst. right; eexists; reflexivity.
   - destruct (lookup m k); [|discriminate]. apply guard_some in H. left; exact H.
-  - destruct (most_recent m); [discriminate|]. inversion H; left; reflexivity.
+  - destruct (most_recent m); [discriminate|]. injection H as <-; left; reflexivity.
   - destruct (most_recent m); [|discriminate]. apply guard_some in H. left; exact H.
-  - destruct (oldest m); [discriminate|]. inversion H; left; reflexivity.
+  - destruct (oldest m); [discriminate|]. injection H as <-; left; reflexivity.
   - destruct (oldest m); [|discriminate]. apply guard_some in H. left; exact H.
 Qed.
 
